@@ -51,7 +51,8 @@ def msgKind : Msg → String
   | .interested => "in" | .notInterested => "ni" | .haveP .. => "hv" | .bitfield .. => "bf"
   | .request .. => "rq" | .piece .. => "pc" | .cancel .. => "cn"
 
-/-- C07 lines. -/
+/-- C07 lines. The property oracles are evaluated on the implementation's own output first (a failing oracle is a
+    violation whether or not the model agrees); only then is the model compared (correspondence). -/
 def c07 (args res : List String) : Verdict :=
   match args with
   | "enc" :: m =>
@@ -59,8 +60,8 @@ def c07 (args res : List String) : Verdict :=
     | some msg, [r] =>
       let tag := "enc-" ++ msgKind msg
       let model := toHex (encode msg)
-      if r ≠ model then vDiff "encode" model tag
-      else if toHex (layoutSpec msg) ≠ r then vProp "T1-layout" tag
+      if toHex (layoutSpec msg) ≠ r then vProp "T1-emitted-bytes-are-not-the-BEP3-layout" tag
+      else if r ≠ model then vDiff "encode" model tag
       else vOk tag
     | _, _ => vBad (joinToks args)
   | ["rt", m, rest] =>
@@ -70,12 +71,11 @@ def c07 (args res : List String) : Verdict :=
       let buf := encode msg ++ restB
       let model := parseOutToks (parseImpl buf)
       let tag := "rt-" ++ msgKind msg
-      if res ≠ model then vDiff "parse" (joinToks model) tag
-      else
-        let n := (encode msg).length
-        if n ≤ 4 + Rdest.Gen.MAX_FRAME_SIZE ∨ msgKind msg = "hs" then
-          if res = parseOutToks (.frame msg n) then vOk tag else vProp "T2-roundtrip" tag
-        else vOk (tag ++ "-oversize")
+      let n := (encode msg).length
+      let within := decide (n ≤ 4 + Rdest.Gen.MAX_FRAME_SIZE) || msgKind msg = "hs"
+      if within ∧ res ≠ parseOutToks (.frame msg n) then vProp "T2-layout-does-not-decode-to-the-same-message" tag
+      else if res ≠ model then vDiff "parse" (joinToks model) tag
+      else vOk (if within then tag else tag ++ "-oversize")
     | _, _ => vBad (joinToks args)
   | ["bits", n, bits] =>
     match n.toNat? with
@@ -85,9 +85,16 @@ def c07 (args res : List String) : Verdict :=
       let back := toVec packed n
       let model := [toHex packed, match back with | some v => stringOfBits v | none => "err"]
       let tag := if n % 8 = 0 then "bits-aligned" else "bits-unaligned"
-      if res ≠ model then vDiff "bitfield" (joinToks model) tag
-      else if n = bs.length ∧ back ≠ some bs then vProp "T4-bits-roundtrip" tag
-      else if n = bs.length ∧ (List.range n).any (fun i => specBit packed i ≠ bs.getD i false) then vProp "T4-bit-position" tag
+      -- oracles on the implementation's packed bytes and decoded bits
+      let implPacked := (res.head?.bind parseHex)
+      let implBack := res.getD 1 "?"
+      let posBad : Bool := match implPacked with
+        | some pk => (List.range bs.length).any (fun i => specBit pk i ≠ bs.getD i false) ||
+                     decide (pk.length ≠ (bs.length + 7) / 8)
+        | none => true
+      if n = bs.length ∧ implBack ≠ stringOfBits bs then vProp "T4-bitfield-does-not-round-trip" tag
+      else if n = bs.length ∧ posBad = true then vProp "T4-bit-position-or-payload-length" tag
+      else if res ≠ model then vDiff "bitfield" (joinToks model) tag
       else vOk tag
     | none => vBad (joinToks args)
   | _ => vBad (joinToks args)
